@@ -8,7 +8,7 @@ from .core import *
 from .interp_expr import Frame
 
 
-PURE_DYN_METHODS_ = {'get', 'keys', 'values', 'items', 'currencies', 'get_currency_units', 'is_empty', 'lower', 'upper',
+PURE_DYN_METHODS_ = {'walk', 'get', 'keys', 'values', 'items', 'currencies', 'get_currency_units', 'is_empty', 'lower', 'upper',
                      'strip', 'quantize', 'weekday', 'isoweekday', 'isocalendar', 'date', 'get_positions', 'copy',
                      'split', 'rstrip', 'lstrip', 'startswith', 'endswith', 'format', 'group', 'total_seconds', 'strftime',
                      'to_string', 'as_tuple', 'is_zero', 'build', 'join', 'reduce'}
@@ -287,13 +287,17 @@ class CallMixin:
             pre = self.eval_contract_fn(c.requires, env)
             self.prove(self.truthy(pre), 'call-pre', label, ln)
         pre_env = dict(env)
-        saved_pre = (self.pre_env, self.pre_heap)
-        self.pre_env, self.pre_heap = pre_env, {k: dict(v) for k, v in self.heap.items()}
+        saved_pre = (self.pre_env, self.pre_heap, self.pre_fields)
+        self.pre_env, self.pre_heap, self.pre_fields = pre_env, {k: dict(v) for k, v in self.heap.items()}, dict(self.fields)
         try:
             # exceptional alternatives
             alts = ['normal'] + list(c.raises)
             k = self.choose(len(alts)) if len(alts) > 1 else 0
             for path in (c.modifies or []):
+                if path.startswith('fields:'):
+                    self.field_arr(path[7:])
+                    self.fields[path[7:]] = z3.Const(self.fresh('hvF_' + path[7:]), z3.ArraySort(Val, Val))
+                    continue
                 self.havoc_path(env, path)
             if k > 0:
                 exc = alts[k]
@@ -318,7 +322,7 @@ class CallMixin:
                 self.assume(self.truthy(self.eval_contract_fn(e, env2)))
             return res
         finally:
-            self.pre_env, self.pre_heap = saved_pre
+            self.pre_env, self.pre_heap, self.pre_fields = saved_pre
 
     def havoc_path(self, env, path):
         parts = path.split('.')
@@ -476,12 +480,6 @@ class CallMixin:
     def e_GeneratorExp(self, fr, node):
         return self.comprehension(fr, node, 'tuple')
 
-    def e_SetComp(self, fr, node):
-        raise Unsupported('set comprehension')
-
-    def e_DictComp(self, fr, node):
-        raise Unsupported('dict comprehension')
-
     def comprehension(self, fr, node, kind):
         if len(node.generators) != 1:
             raise Unsupported('nested comprehension')
@@ -512,9 +510,17 @@ class CallMixin:
             return STuple(out, 'tuple')
         if isinstance(it, SRange):
             return self.quant_or_map_range(fr, node, gen, it, kind)
+        index_name = None
+        if isinstance(it, SEnum):
+            # enumerate(seq): the target is (index, element)
+            if not (isinstance(gen.target, ast.Tuple) and len(gen.target.elts) == 2 and isinstance(gen.target.elts[0], ast.Name)):
+                raise Unsupported('enumerate comprehension target')
+            index_name = gen.target.elts[0].id
+            gen = ast.comprehension(target=gen.target.elts[1], iter=gen.iter, ifs=gen.ifs, is_async=0)
+            it = it.seq
         seq = self.as_seq(it)
-        if gen.ifs:
-            raise Unsupported('filtered comprehension over a symbolic sequence')
+        if gen.ifs or index_name is not None:
+            return self.filter_comprehension(fr, node, gen, seq, kind, index_name)
         # map: r = MAP_k(seq, captured...) with len(r) == len(seq) and r[j] == elt(seq[j]) for all j.
         # The symbol depends only on the element expression (target renamed) so that the same
         # comprehension written in code and in a specification denotes the same term.
@@ -553,6 +559,135 @@ class CallMixin:
         self.assume(z3.Length(r) == z3.Length(seq.t))
         self.assume(z3.ForAll([j], z3.Implies(z3.And(j >= 0, j < z3.Length(seq.t)), r[j] == self.to_val(body))))
         return SSeq(r, kind)
+
+    def _elem_env(self, fr, gen, seq, idx, index_name):
+        nfr = Frame(dict(fr.env), fr.mod, fr.func, fr.cls, fr.closure)
+        elem = self.from_val(seq.t[idx], seq.elem) if seq.elem is not None else SDyn(seq.t[idx])
+        self.assign(nfr, gen.target, elem)
+        if index_name is not None:
+            nfr.env[index_name] = SInt(idx)
+        return nfr
+
+    def filter_comprehension(self, fr, node, gen, seq, kind, index_name):
+        """[elt(i, x) for i, x in enumerate(seq) if cond(x)] as a fresh sequence r characterised by an order-preserving
+        bijection between the kept indices of seq and the indices of r (witness functions idx / pos):
+        trusted encoding of Python's comprehension semantics, no induction needed by the solver."""
+        n = z3.Length(seq.t)
+        j, j2, i = z3.Int(self.fresh('j')), z3.Int(self.fresh('j')), z3.Int(self.fresh('i'))
+
+        def cond_at(k):
+            nfr = self._elem_env(fr, gen, seq, k, index_name)
+            cs = [self.truthy(self.eval(nfr, c)) for c in gen.ifs]
+            return z3.And(*cs) if cs else z3.BoolVal(True)
+
+        def elt_at(k):
+            nfr = self._elem_env(fr, gen, seq, k, index_name)
+            return self.to_val(self.eval(nfr, node.elt))
+        self.specmode += 1
+        try:
+            # the comprehension denotes FILT(cond, elt, n): a term that depends only on the condition and element
+            # functions (as lambdas over the index), so the same comprehension in code and in a specification is
+            # the same term
+            q = z3.Int('q!filt')
+            condL = z3.Lambda([q], cond_at(q))
+            eltL = z3.Lambda([q], elt_at(q))
+            AB, AV = z3.ArraySort(I, B), z3.ArraySort(I, Val)
+            FILT = uf('FILT', AB, AV, I, SeqV)
+            IDX = uf('FILT_idx', AB, I, I, I)
+            POS = uf('FILT_pos', AB, I, I, I)
+            r = FILT(condL, eltL, n)
+            idx = lambda x: IDX(condL, n, x)
+            pos = lambda x: POS(condL, n, x)
+            key = ('filt-axioms', r.get_id())
+            if key not in self.gcache:
+                self.gcache[key] = True
+                L = z3.Length(r)
+                self.assume(z3.And(L >= 0, L <= n))
+                self.assume(z3.ForAll([j], z3.Implies(z3.And(j >= 0, j < L),
+                            z3.And(idx(j) >= j, idx(j) < n, cond_at(idx(j)), r[j] == elt_at(idx(j)), pos(idx(j)) == j))))
+                self.assume(z3.ForAll([j, j2], z3.Implies(z3.And(j >= 0, j < j2, j2 < L), idx(j) < idx(j2))))
+                self.assume(z3.ForAll([i], z3.Implies(z3.And(i >= 0, i < n, cond_at(i)), z3.And(pos(i) >= 0, pos(i) <= i, pos(i) < L, idx(pos(i)) == i))))
+        finally:
+            self.specmode -= 1
+        out = SSeq(r, kind)
+        return out
+
+    def e_DictComp(self, fr, node):
+        """{key(i, x): val(i, x) for i, x in enumerate(seq) if cond(x)}: last write wins (witness function w)"""
+        if len(node.generators) != 1:
+            raise Unsupported('nested dict comprehension')
+        gen = node.generators[0]
+        it = self.eval(fr, gen.iter)
+        index_name = None
+        if isinstance(it, SEnum):
+            if not (isinstance(gen.target, ast.Tuple) and len(gen.target.elts) == 2 and isinstance(gen.target.elts[0], ast.Name)):
+                raise Unsupported('enumerate comprehension target')
+            index_name = gen.target.elts[0].id
+            gen = ast.comprehension(target=gen.target.elts[1], iter=gen.iter, ifs=gen.ifs, is_async=0)
+            it = it.seq
+        seq = self.as_seq(it)
+        n = z3.Length(seq.t)
+        has = z3.Const(self.fresh('dhas'), z3.ArraySort(Val, B))
+        get = z3.Const(self.fresh('dget'), z3.ArraySort(Val, Val))
+        w = z3.Function(self.fresh('dw'), Val, I)
+        k, i = z3.Const(self.fresh('k'), Val), z3.Int(self.fresh('i'))
+
+        def at(expr_node, kk, cond=False):
+            nfr = self._elem_env(fr, gen, seq, kk, index_name)
+            if cond:
+                cs = [self.truthy(self.eval(nfr, c)) for c in gen.ifs]
+                return z3.And(*cs) if cs else z3.BoolVal(True)
+            return self.to_val(self.eval(nfr, expr_node))
+        self.specmode += 1
+        try:
+            self.assume(z3.ForAll([i], z3.Implies(z3.And(i >= 0, i < n, at(None, i, True)), z3.Select(has, at(node.key, i)))))
+            self.assume(z3.ForAll([k], z3.Implies(z3.Select(has, k), z3.And(
+                w(k) >= 0, w(k) < n, at(None, w(k), True), at(node.key, w(k)) == k, z3.Select(get, k) == at(node.value, w(k))))))
+            self.assume(z3.ForAll([k, i], z3.Implies(z3.And(z3.Select(has, k), i > w(k), i < n, at(None, i, True)), at(node.key, i) != k)))
+            # direct consequence of the line above, stated for the solver: the last write for the key of entry i is not before i
+            self.assume(z3.ForAll([i], z3.Implies(z3.And(i >= 0, i < n, at(None, i, True)), w(at(node.key, i)) >= i)))
+        finally:
+            self.specmode -= 1
+        return SDict(has, get)
+
+    def e_SetComp(self, fr, node):
+        """{elt(x) for x in seq [if cond(x)]}: membership = exists an index; the element sequence is remembered"""
+        lst = self.comprehension(fr, node, 'list')
+        if isinstance(lst, STuple):
+            lst = self.as_seq(lst)
+        v = z3.Const('v!set', Val)
+        return SSet(z3.Lambda([v], z3.Contains(lst.t, z3.Unit(v))), src=lst)
+
+    def sorted_model(self, fr, seq, keyf, reverse, node):
+        """sorted(seq, key=f): a stable sorted permutation (witness functions perm / inv)"""
+        n = z3.Length(seq.t)
+        r = z3.Const(self.fresh('sorted'), SeqV)
+        perm = z3.Function(self.fresh('perm'), I, I)
+        inv = z3.Function(self.fresh('inv'), I, I)
+        a, b = z3.Int(self.fresh('a')), z3.Int(self.fresh('b'))
+
+        def key_at(s, k):
+            e = self.from_val(s[k], seq.elem) if seq.elem is not None else SDyn(s[k])
+            if keyf is None:
+                return e
+            return self.call_value(fr, keyf, [e], {}, node)
+        self.specmode += 1
+        try:
+            self.assume(z3.Length(r) == n)
+            self.assume(z3.ForAll([a], z3.Implies(z3.And(a >= 0, a < n), z3.And(perm(a) >= 0, perm(a) < n, r[a] == seq.t[perm(a)], inv(perm(a)) == a))))
+            self.assume(z3.ForAll([a], z3.Implies(z3.And(a >= 0, a < n), z3.And(inv(a) >= 0, inv(a) < n, perm(inv(a)) == a))))
+            lt = lambda x, y: self.truthy(self.compare(fr, ast.Lt(), x, y, node))
+            if reverse:
+                self.assume(z3.ForAll([a, b], z3.Implies(z3.And(a >= 0, a < b, b < n), z3.Not(lt(key_at(r, a), key_at(r, b))))))
+            else:
+                self.assume(z3.ForAll([a, b], z3.Implies(z3.And(a >= 0, a < b, b < n), z3.Not(lt(key_at(r, b), key_at(r, a))))))
+            # stability
+            self.assume(z3.ForAll([a, b], z3.Implies(z3.And(a >= 0, a < b, b < n, z3.Not(lt(key_at(r, a), key_at(r, b))), z3.Not(lt(key_at(r, b), key_at(r, a)))), perm(a) < perm(b))))
+        finally:
+            self.specmode -= 1
+        out = SSeq(r, 'list', seq.elem)
+        out.witness = (perm, inv, seq)
+        return out
 
     def quant_or_map_range(self, fr, node, gen, rng, kind):
         raise Unsupported('comprehension over symbolic range outside all()/any()')
@@ -596,6 +731,11 @@ class CallMixin:
         if universal:
             return SBool(z3.ForAll([j], z3.Implies(dom, body)))
         return SBool(z3.Exists([j], z3.And(dom, body)))
+
+
+class SEnum(SV):
+    def __init__(self, seq):
+        self.seq = seq
 
 
 class SRange(SV):
